@@ -1019,58 +1019,79 @@ fn writers_race(seed: u64, case: u64, scratch: &Path) -> ExecResult {
     let hash = fnv64(format!("{}{seed}{case}", sample.render()).as_bytes());
     let mut violations = vec![];
     let r = catch_unwind(AssertUnwindSafe(|| -> Result<(), Violation> {
-        for round in 0..rng.range(30, 80) {
-            let with_rotator = rng.chance(1, 3);
-            let per = rng.range(5, 40);
-            let done = Arc::new(AtomicBool::new(false));
-            let mut hs = vec![];
-            for w in 0..writers {
-                let sh2 = sh.clone();
-                hs.push(std::thread::spawn(move || -> u64 {
-                    let mut top = 0;
-                    for i in 0..per {
-                        let s = sh2.seqno.next();
-                        let _ = sh2.tree.insert(format!("~w{w}-{round:03}-{i:03}").into_bytes(), b"v".to_vec(), s);
-                        sh2.visible.fetch_max(s + 1);
-                        top = top.max(s);
+        // Persistent writer threads released round by round through a spin barrier, ONE insert each per round: the
+        // inserts of a round hit the same memtable at the same instant (thread start-up skew would otherwise keep
+        // them apart), and the marks are checked after every round - a lost update of the high-water mark is only
+        // visible until the next higher insert repairs it.
+        let go = Arc::new(AtomicU64::new(0));
+        let done = Arc::new(AtomicU64::new(0));
+        let stop = Arc::new(AtomicBool::new(false));
+        let slots: Arc<Vec<AtomicU64>> = Arc::new((0..writers).map(|_| AtomicU64::new(0)).collect());
+        let mut hs = vec![];
+        for w in 0..writers {
+            let (sh2, go2, done2, stop2, slots2) = (sh.clone(), go.clone(), done.clone(), stop.clone(), slots.clone());
+            hs.push(std::thread::spawn(move || {
+                let mut r = 1u64;
+                loop {
+                    while go2.load(Ordering::Acquire) < r {
+                        if stop2.load(Ordering::Relaxed) {
+                            return;
+                        }
+                        std::hint::spin_loop();
                     }
-                    top
-                }));
+                    let s = sh2.seqno.next();
+                    let _ = sh2.tree.insert(format!("~w{w}-{r:06}").into_bytes(), b"v".to_vec(), s);
+                    sh2.visible.fetch_max(s + 1);
+                    slots2[w].store(s, Ordering::Release);
+                    done2.fetch_add(1, Ordering::AcqRel);
+                    r += 1;
+                }
+            }));
+        }
+        let rounds = rng.range(4000, 12000);
+        let t0 = Instant::now();
+        let mut res = Ok(());
+        for round in 1..=rounds {
+            go.store(round, Ordering::Release);
+            while done.load(Ordering::Acquire) < round * writers as u64 {
+                std::hint::spin_loop();
             }
-            let rot = if with_rotator {
-                let (sh2, d2) = (sh.clone(), done.clone());
-                Some(std::thread::spawn(move || {
-                    while !d2.load(Ordering::Relaxed) {
-                        let _ = sh2.tree.rotate_memtable();
-                        std::thread::yield_now();
-                    }
-                }))
-            } else {
-                None
-            };
-            let top = hs.into_iter().map(|h| h.join().unwrap_or(0)).max().unwrap_or(0);
-            done.store(true, Ordering::Relaxed);
-            if let Some(h) = rot {
-                let _ = h.join();
-            }
-            bump(&mut counters, "writer_race_rounds", 1);
+            let top = slots.iter().map(|s| s.load(Ordering::Acquire)).max().unwrap_or(0);
             let (mem, all) = (sh.tree.get_highest_memtable_seqno(), sh.tree.get_highest_seqno());
-            bump(&mut counters, "highest_seqno_checks", 2);
             if mem != Some(top) || all.is_none_or(|a| a < top) {
-                return Err(Violation::new(
+                res = Err(Violation::new(
                     &["C18"],
                     "memtable-seqno-after-concurrent-writers",
-                    format!("round {round}: {writers} writers inserted concurrently, the largest seqno in the memtables is {top}, but get_highest_memtable_seqno() = {mem:?}, get_highest_seqno() = {all:?}"),
+                    format!("round {round}: {writers} writers inserted one entry each at the same time, the largest seqno in the memtables is {top}, but get_highest_memtable_seqno() = {mem:?}, get_highest_seqno() = {all:?}"),
                 ));
+                break;
             }
-            for w in 0..writers {
-                let k = format!("~w{w}-{round:03}-{:03}", per - 1).into_bytes();
-                if sh.tree.get(&k, u64::MAX).map_err(|e| viol("read-error", format!("{e:?}")))?.is_none() {
-                    return Err(viol("lost-write-after-concurrent-writers", format!("round {round}: key {:?} written by writer {w} is missing", esc(&k))));
+            if round % 1500 == 0 {
+                // all writers are parked at the barrier: rotate / flush between rounds
+                if rng.chance(1, 2) {
+                    let _ = sh.tree.rotate_memtable();
+                } else if let Err(e) = sh.tree.flush_active_memtable(0) {
+                    res = Err(viol("error:flush", format!("{e:?}")));
+                    break;
                 }
             }
-            if rng.chance(1, 6) {
-                sh.tree.flush_active_memtable(0).map_err(|e| viol("error:flush", format!("{e:?}")))?;
+            if t0.elapsed() > Duration::from_secs(8) {
+                break;
+            }
+        }
+        bump(&mut counters, "writer_race_rounds", done.load(Ordering::Acquire) / writers as u64);
+        bump(&mut counters, "highest_seqno_checks", 2 * (done.load(Ordering::Acquire) / writers as u64));
+        stop.store(true, Ordering::Relaxed);
+        for h in hs {
+            let _ = h.join();
+        }
+        res?;
+        // every write of the last round reads back
+        let last = done.load(Ordering::Acquire) / writers as u64;
+        for w in 0..writers {
+            let k = format!("~w{w}-{last:06}").into_bytes();
+            if last > 0 && sh.tree.get(&k, u64::MAX).map_err(|e| viol("read-error", format!("{e:?}")))?.is_none() {
+                return Err(viol("lost-write-after-concurrent-writers", format!("key {:?} written by writer {w} is missing", esc(&k))));
             }
         }
         Ok(())
